@@ -87,7 +87,7 @@ function genSpec(seed, idx) {
   const nMethods = 1 + rng.below(6);
   for (let m = 0; m < nMethods; m++) {
     const owner = rng.pick(opaques);
-    const nl = 1 + rng.below(4);
+    const nl = rng.pick([1, 2, 3, 4, 4]);
     const lts = LTS.slice(0, nl);
     const implLts = owner.lts.map((_, i) => "s" + i);
     const anyLt = () => rng.pick(lts);
@@ -126,8 +126,16 @@ function genSpec(seed, idx) {
     const useDefBounds = (tyName, args) => { for (const [l, sh] of defBoundsOf(tyName, args)) addBound(l, sh); };
     for (const p of params) if (p.kind !== "slice") useDefBounds(p.ty, p.args);
     useDefBounds(ret.ty, ret.args);
-    const nExtra = rng.below(4);
+    // swarm: sparse or dense bound graphs (dense ones produce diamonds, cycles and re-converging paths)
+    const mode = rng.below(6);
+    const nExtra = mode < 2 ? 3 + rng.below(5) : rng.below(4);
     for (let e = 0; e < nExtra; e++) addBound(anyLt(), anyLt());
+    if (mode === 5) {
+        // fan-in: (almost) every other lifetime directly outlives one lifetime of the return type, with
+        // a few bounds among them — re-converging paths in the transitive closure
+        const rl = [...ret.args, ...(ret.lt ? [ret.lt] : [])];
+        if (rl.length) { const r = rng.pick(rl); for (const x of lts) if (x !== r && rng.chance(5, 6)) addBound(x, r); }
+    }
     const implBounds = owner.bounds.map(([l, s]) => ["s" + owner.lts.indexOf(l), "s" + owner.lts.indexOf(s)]);
     methods.push({ owner: owner.name, name: "m" + m, static: isStatic, lts, implLts, implBounds, self, params, ret, bounds });
   }
